@@ -16,6 +16,7 @@ EMPHASIS = {
     "5": "Produce TWO independent *seeded defects* (call them `a` and `b`, touching different mechanisms / code sites). Both must read like work a maintainer would really do and commit with a harmless-sounding message: a performance optimisation (caching, avoiding a copy or an allocation, reading in bulk, early exit, reusing a buffer or a slice), a readability refactor (merging duplicated code into a helper, replacing a hand-written loop by a standard-library call such as strings.EqualFold / strings.Index / slices.Clone / maps.Clone / sort / bytes / unicode functions, turning an if-chain into a switch or a table), or a generalisation (accepting Unicode where only ASCII was handled, supporting larger inputs). The defect is the subtle behavioural difference the rewrite introduces. Think about where such a rewrite changes behaviour only for: multi-byte UTF-8 text or program source, texts with CR LF line ends, empty strings / empty matches / empty files, values at or just past a capacity (slice growth, buffer size, batch size), aliasing of slices and maps between a snapshot and the running state, the second or later use of something (second match, second command, second Run, second file), and negative / zero / very large numbers in amount clauses and process arithmetic",
     "6": "Produce TWO independent *seeded defects* (call them `a` and `b`, touching different mechanisms / code sites). Assume the property is already guarded by randomized property-based tests that generate small programs and short inputs and compare the results with a reference implementation, and by the project's own unit tests. Choose defects such testing is UNLIKELY to trigger, yet that real users of the tool would meet sooner or later. Directions: behaviour that only differs at scale (long lines, many lines, thousands of matches, deep nesting, long literals, many alternatives, large numbers in amount clauses or loop bounds, big files, many files); rarely written but documented syntax and its combinations; particular byte values (NUL, DEL, 0x80-0xFF, multi-byte UTF-8, CR without LF, form feed); the environment (file without trailing newline, empty file, read-only or missing file, directory where a file is expected, symbolic links, relative vs absolute paths, pre-existing output files); the same compiled program or the same process used for a long time (hundreds of Run calls, many compiles, alternating programs); and values that sit exactly on a power of two or a buffer size. At least one of the two must live outside the function the property's anchors name first",
     "7": "Produce TWO independent *seeded defects* (call them `a` and `b`, touching different mechanisms / code sites). Look at how programs are *structured* and how the library is *used*, rather than at single matching steps: programs with many commands and many definitions, unused definitions, definitions that reference other definitions, a capture or subroutine or loop name that equals a definition's name or a built-in's name (value, match, matchNumber, startOffset ...) or differs from a keyword only by a suffix (`orb`, `inx`, `ender`, `digits`), the same name in two commands, comments and line breaks in unusual places; the less used entry points and results (CompileFile, RunFiles with several files or the same file twice, the processFilenames argument, Matches.Json / FormattedJson on empty and on large results, Match fields of replace commands); the order of operations across calls (compile A, compile B, run A, run B, run A again; a failed compile in between; a run that panicked and was recovered in between); inputs that are empty, a single byte, only line breaks, or one very long line. The defect should leave the common single-command, single-call use intact. At least one of the two must live outside the function the property's anchors name first",
+    "8": "Produce TWO independent *seeded defects* (call them `a` and `b`, touching different mechanisms / code sites). Read the property's statement clause by clause. For each defect pick ONE clause (or one word of the quantifier) and break only that clause, on an input class that needs a conjunction of at least THREE conditions at once - for example: (a lazy loop) AND (inside an alternation that is not the first alternative) AND (at the end of the input); (a replace command) AND (an amount clause that skips matches) AND (a match spanning a line break); (a named loop) AND (a second match in the same text) AND (a capture that stayed empty); (a file larger than the read buffer) AND (mode OVERWRITE) AND (a replacement longer than the match). Small inputs are fine - the point is the conjunction, not the size. Everything outside the conjunction, including each pair of the three conditions, must keep working. State the three conditions explicitly in meta.json under \"needs\". At least one of the two must live outside the function the property's anchors name first",
 }
 os.makedirs(base, exist_ok=True)
 for line in open("/verif/properties.jsonl"):
